@@ -574,6 +574,29 @@ class Interp:
                 nf = a[1].add(b[1] if op == 'Add' else -b[1])
                 return ('int', self.wrap_to(nf, ty), ty)
             return self.binop(op, a, b, ty)
+        if path.startswith('core::num::<impl ') and name == 'abs_diff' and len(args) == 2:
+            # |a - b| in the unsigned type of the same width; with one constant operand the sign of a - b is decided per cell
+            ty = path[len('core::num::<impl '):].split('>')[0]
+            uty = ('u' + ty[1:]) if ty.startswith('i') else ty
+            a, b = args
+            if a[0] == 'const' and b[0] == 'int':
+                a, b = b, a
+            if a[0] == 'int' and b[0] == 'const':
+                lo, hi = self.interval(a[1])
+                if lo >= b[1]:
+                    return ('int', self.wrap_to(a[1].add(-b[1]), uty), uty)
+                if hi <= b[1]:
+                    raise Top('abs_diff below a constant')      # (c - a: a decreasing form, outside the family)
+                raise Split(first_ge(a[1], self.lo, self.hi, b[1]))
+            raise Top('abs_diff of %s,%s' % (a[0], b[0]))
+        if path.startswith('core::num::<impl ') and name in ('wrapping_add_unsigned', 'wrapping_add_signed') and len(args) == 2:
+            ty = path[len('core::num::<impl '):].split('>')[0]
+            a, b = args
+            if a[0] == 'const' and b[0] == 'int':
+                return ('int', self.wrap_to(b[1].add(a[1]), ty), ty)
+            if a[0] == 'int' and b[0] == 'const':
+                return ('int', self.wrap_to(a[1].add(b[1]), ty), ty)
+            raise Top('%s of %s,%s' % (name, a[0], b[0]))
         if name == 'try_from' and callee.get('trait') == 'core::convert::TryFrom' and len(args) == 1:
             # uN::try_from(s) / iN::try_from(s): Ok(s as T) exactly when s is in T's range, else Err(_)
             dst = callee['args'][0]
